@@ -103,7 +103,7 @@ def edit(kind, blk, labels, rng):
     return None
 
 
-def observe(blk, labels):
+def observe(blk, labels, foreign=None):
     def enc():
         try:
             return A.encode(blk)
@@ -114,7 +114,8 @@ def observe(blk, labels):
     pos = {id(o): i for i, o in enumerate(items)}
     n = len(labels)
     keys = [("idx", i) for i in range(-n - 2, n + 2)] + [("idx", True), ("idx", False)] + [("label", l) for l in sorted(set(labels + derived_keys(labels))) + ["zz", "missing"]] + \
-           [("other", None), ("other", 1.5), ("other", b"x"), ("other", np.int64(0)), ("other", ("a",))] + [("item", o) for o in items[:2]]
+           [("other", None), ("other", 1.5), ("other", b"x"), ("other", np.int64(0)), ("other", ("a",))] + [("item", o) for o in items[:2] + items[-1:]] + \
+           ([("foreign-item", foreign)] if foreign is not None else [])
     obs = []
     for kk, kv in keys:
         try:
@@ -122,12 +123,11 @@ def observe(blk, labels):
             out = ("item", pos.get(id(r), -1))
         except Exception as e:
             out = (type(e).__name__,)
-        cont = None
-        if kk == "label":
-            try:
-                cont = kv in blk
-            except Exception as e:
-                cont = type(e).__name__
+        try:
+            cont = kv in blk        # membership is asked for EVERY key: labels, item objects, integers, objects of other types
+            cont = bool(cont) if isinstance(cont, (bool, np.bool_)) else repr(cont)
+        except Exception as e:
+            cont = type(e).__name__
         obs.append((kk, kv, out, cont))
     try:
         ln = len(blk)
@@ -140,6 +140,10 @@ def observe(blk, labels):
             mk_keys.append([Sym("idx"), kv])
         elif kk == "label":
             mk_keys.append([Sym("label"), lid(kv)])
+        elif kk == "item":
+            mk_keys.append([Sym("item"), pos[id(kv)]])
+        elif kk == "foreign-item":
+            mk_keys.append([Sym("item"), len(items) + 3])
         else:
             mk_keys.append(Sym("other"))
     return dict(labels=list(labels), n_items=len(items), obs=obs, ln=ln, unchanged=unchanged), [Sym("lk.run"), [lid(l) for l in labels], mk_keys]
@@ -161,7 +165,8 @@ def run(ctx):
     rounds = []
     for kind, labels in cases:
         blk = mk(kind, labels, rng)
-        o, cmd = observe(blk, labels)
+        foreign = list(iter(mk(kind, ["zz-foreign"], rng)))[0]        # an item object of the right class that the block does not hold
+        o, cmd = observe(blk, labels, foreign)
         rounds.append((kind, labels, [], o))
         cmds.append(cmd)
         # the same questions again after in-place edits (a lookup must not leave anything behind that outlives an edit)
@@ -172,7 +177,7 @@ def run(ctx):
                 continue
             cur, what = e
             edits = edits + [what]
-            o, cmd = observe(blk, cur)
+            o, cmd = observe(blk, cur, foreign)
             rounds.append((kind, labels, edits, o))
             cmds.append(cmd)
     replies = common.drv_batch(cmds)
@@ -207,16 +212,22 @@ def run(ctx):
                 if cont is not (first is not None):
                     ctx.fail(f"{where}: 'in' reports {cont} but lookup by that label {'succeeds' if first is not None else 'fails'}", rp, ident=f"{kind} contains != lookup")
                     break
-            if kk in ("other", "item") and out[0] != "TypeError":
+            if kk == "item" and cont is not True:
+                ctx.fail(f"{where}: an item that iteration yields is reported as not contained ('in' gave {cont})", rp, ident=f"{kind} iterated item not contained")
+                break
+            if kk in ("other", "idx") and cont != "TypeError":
+                ctx.fail(f"{where}: 'in' with an unsupported key type gave {cont} instead of TypeError", rp, ident=f"{kind} contains unsupported key")
+                break
+            if kk in ("other", "item", "foreign-item") and out[0] != "TypeError":
                 ctx.fail(f"{where}: unsupported key type gave {out} instead of TypeError", rp, ident=f"{kind} unsupported key")
                 break
             # correspondence
             mo = ("item", m[1]) if m[0] == "item" else (str(m[0]),)
-            if kk != "item" and out != mo:
+            if out != mo:
                 ctx.diff("lk.getitem", f"{where}: real {out} model {mo}", rp)
                 break
-            if kk == "label" and isinstance(cont, bool) and (m[-1] == 1) != cont:
-                ctx.diff("lk.contains", f"{where}: real {cont} model {m[-1]}", rp)
+            if {1: True, 0: False, -2: "TypeError"}.get(m[-1]) != cont:
+                ctx.diff("lk.contains", f"{where}: 'in' gives {cont}, model {m[-1]} (1 yes, 0 no, -2 TypeError)", rp)
                 break
         else:
             if not o["unchanged"]:
